@@ -33,6 +33,29 @@ def prepare_harness():
         shutil.copy(os.path.join(REPO, 'Cargo.lock'), lock)
 
 
+ENV_VALUES = ['0', '', 'x', '2', '1', '3 ']
+
+
+def crate_env_names():
+    """Names of the environment variables the crate under test can read (scan of $OHSL_REPO/src): string literals passed to
+    env::var / var_os, plus every upper-case literal in a file that touches std::env (names kept in constants)."""
+    import re
+    names = set()
+    src = os.path.join(REPO, 'src')
+    for root, _, fs in os.walk(src):
+        for f in fs:
+            if not f.endswith('.rs'):
+                continue
+            try:
+                t = open(os.path.join(root, f), errors='replace').read()
+            except OSError:
+                continue
+            names.update(re.findall(r'\bvar(?:_os)?\s*\(\s*"([A-Za-z_][A-Za-z0-9_]*)"', t))
+            if 'env::' in t or 'std::env' in t:
+                names.update(re.findall(r'"([A-Z][A-Z0-9_]{3,})"', t))
+    return sorted(names)
+
+
 def sh(cmd, cwd=None, env=None, timeout=None):
     e = dict(os.environ)
     if env:
@@ -277,7 +300,7 @@ class Ctx:
             return
         self.nrep += 1
         path = os.path.join(self.out, 'replay_%s_%d.json' % (self.tier, self.nrep))
-        json.dump(dict(property=self.pid, suite=suite, trace_module=module, why=why, seed=self.seed, tier=self.tier, case=case, event=event), open(path, 'w'))
+        json.dump(dict(property=self.pid, suite=suite, trace_module=module, why=why, seed=self.seed, tier=self.tier, case=case, event=event, env=getattr(self, 'envset', None)), open(path, 'w'))
         self.violations.append(path)
 
     def direct_violation(self, suite, why, payload):
@@ -306,7 +329,9 @@ class Ctx:
         ev = dict(property_id=self.pid, tier=self.tier, seed=self.seed, level=level, coverage=cov,
                   assumptions=self.assumptions, wall_s=round(time.time() - self.t0, 1), violations=nviol,
                   known_findings_reported=self.known, notes=self.notes)
-        if REPO == '/repo':
+        if getattr(self, 'envset', None):
+            json.dump(ev, open(os.path.join(self.out, 'evidence_env.json'), 'w'), indent=1)
+        elif REPO == '/repo':
             os.makedirs(os.path.join(VERIF, 'evidence'), exist_ok=True)
             json.dump(ev, open(os.path.join(VERIF, 'evidence', self.pid + '.json'), 'w'), indent=1)
         else:   # a scratch copy is being checked (mutation testing): never touch the committed evidence
@@ -347,6 +372,7 @@ def main():
     try:
         if a[1] == '--replay':
             rp = json.load(open(a[2]))
+            os.environ.update(rp.get('env') or {})
             ctx = Ctx(pid, 'quick', rp.get('seed', seed))
             ctx.out = os.path.join(VERIF, 'out', pid, 'replay')
             os.makedirs(ctx.out, exist_ok=True)
@@ -373,8 +399,25 @@ def main():
         tier = os.environ.get('VERIF_TIER', tier) if False else tier
         ctx = Ctx(pid, tier, seed)
         ctx.build()
+        names = crate_env_names()
+        ctx.notes.append('environment: the crate reads no environment variable (scan of src/), so every result is a function of the call arguments and the CPU set only' if not names
+                         else 'environment: the crate can read %s; the whole quick check is repeated with these set to each of %r (the model has no environment: every result must be unchanged)' % (names, ENV_VALUES))
         try:
             rc = props.CHECKS[pid](ctx)
+            if rc == 0 and names:
+                for k, val in enumerate(ENV_VALUES):
+                    os.environ.update({n: val for n in names})
+                    c2 = Ctx(pid, 'quick', seed)
+                    c2.envset = {n: val for n in names}
+                    c2.hooks = getattr(ctx, 'hooks', False)
+                    c2.out = os.path.join(ctx.out, 'env_%d' % k)
+                    os.makedirs(c2.out, exist_ok=True)
+                    print('environment variant %d: %s' % (k, c2.envset))
+                    rc = props.CHECKS[pid](c2)
+                    if rc != 0:
+                        break
+                for n in names:
+                    os.environ.pop(n, None)
         except ToolError as ex:
             # a vacuity / consistency guard of the check fired AFTER violations had already been established:
             # the violations are the verdict (a broken implementation may well starve a later stage of events)
